@@ -457,7 +457,9 @@ func typeAssert(n *node, withResult, withOk bool) {
 				}
 
 				if withResult {
-					value0(f).Set(genInterfaceWrapper(val.node, rtype)(f))
+					// Wrap the value held by the interface, not the operand it was converted from.
+					held := func(*frame) reflect.Value { return val.value }
+					value0(f).Set(genInterfaceWrapperValue(val.node, rtype, held)(f))
 				}
 				ok = true
 				return next
@@ -1192,7 +1194,13 @@ func genFunctionWrapper(n *node) func(*frame) reflect.Value {
 }
 
 func genInterfaceWrapper(n *node, typ reflect.Type) func(*frame) reflect.Value {
-	value := genValue(n)
+	return genInterfaceWrapperValue(n, typ, genValue(n))
+}
+
+// genInterfaceWrapperValue wraps, as genInterfaceWrapper, a value of the type of n which is
+// given by function value, and not read at the location of n: an interface holds its own
+// copy of the value of n, possibly used in another function.
+func genInterfaceWrapperValue(n *node, typ reflect.Type, value func(*frame) reflect.Value) func(*frame) reflect.Value {
 	if typ == nil || typ.Kind() != reflect.Interface || typ.NumMethod() == 0 || n.typ.cat == valueT {
 		return value
 	}
